@@ -48,7 +48,7 @@ class Context:
         if illegal_names:
             raise exceptions.NameConflictError(
                 "Reserved words passed to render(): %s"
-                % ", ".join(illegal_names)
+                % ", ".join(sorted(illegal_names))
             )
 
     @property
